@@ -7,6 +7,8 @@ func init() {
 	addRun("C06", "FB: CCITTFax K<0,0,>0 x EndOfLine x EncodedByteAlign x BlackIs1 x EndOfBlock x Rows x Columns (1..300, 1728, 2560..5120), rows of random bits, byte runs, runs that are multiples of 64, near copies of the previous row, all white/black; encoder and decoder compared with the model, round trip through Info->MakeFilter required outside the known failing classes. Non-trivial: at least one row.", runFBCCITT)
 	addRun("C06", "FB: filter parameter values (valid, shorthand 0, out of range, version dependent) through Info, the emitted dictionary through MakeFilter; arbitrary DecodeParms dictionaries (type confusion, magnitudes up to int64 limits) through MakeFilter; /Filter and /DecodeParms of any shape through GetFilters (chain cap 8, Crypt position); appendFilter from arbitrary entries. Non-trivial: a non-empty dictionary.", runFBParams)
 	addRun("C06", "FB: chains of up to 3 filters through Writer.OpenStream and Reader/DecodeStream with random chunkings.", runFBChains)
+	addRun("C06", "FB: every encoder (CCITTFax K<0/0/>0 with all option sets, Flate/LZW/Compress with predictor rows, ASCII85, ASCIIHex, RunLength) fed from ONE reused caller buffer that is overwritten after every Write — sizes 1,2,3,5,7, row-1, row, row+1, 2.5 rows, 2 rows+1, 3 rows-1, 13, 127, 4095, random — and through io.CopyBuffer: output byte-identical to the single-Write encoding; the encoding read back with 1/3/5/7-byte reused destination buffers and (CCITTFax G4, G3 1-D+EOL) by x/image/ccitt. Non-trivial: data not empty.", runFBChunking)
+	addReplay("C06", "fb-chunking", replayChunking)
 	addReplay("C06", "fb-predict-rt", replayPredictRT)
 	addReplay("C06", "fb-ccitt-rt", replayCCITTRT)
 	addReplay("C06", "fb-params-rt", replayParamsRT)
@@ -14,12 +16,14 @@ func init() {
 	addReplay("C06", "fb-getfilters", replayGetFilters)
 
 	addRun("C07", "FB: library PNG/TIFF predictor output decoded by, and input encoded by, reference codecs written from the PNG and TIFF specifications (Go, in the harness, and Lean Spec/FBCodecs through the driver); library CCITTFax Group 4 and Group 3 1-D (EndOfLine) output decoded by golang.org/x/image/ccitt. Non-trivial: at least one row.", runFBForeign)
+	addRun("C07", "FB: the reused-buffer / io.CopyBuffer encodings of CCITTFax (all K classes) and of the predictor filters equal the single-Write encoding and are read by x/image/ccitt (G4, G3 1-D+EOL).", runFBChunking)
+	addReplay("C07", "fb-chunking", replayChunking)
 	addReplay("C07", "fb-foreign-predict", replayForeignPredict)
 	addReplay("C07", "fb-foreign-ccitt", replayForeignCCITT)
 
 	addRun("C08", "FB: hostile DecodeParms (type confusion, huge Columns/Rows/Colors), dimension bombs, truncated and mutated Flate+predictor and CCITTFax bodies, /Filter chains up to and beyond 8 entries through GetFilters/DecodeStream: data or a malformed error, no panic, output bounded by rows x row size. Non-trivial: the decoder was built.", runFBHostile)
 	addRun("C08", "FB: CCITTFax output bound: every combination of /Rows {absent, 3, cap+1, 2^20, 2^40, negative} x /EndOfBlock {absent, true, false} x K {<0, 0, 1} x EndOfLine x /Columns {1, 8, 1728, 65536, 2^20} with an all-white / all-black body that encodes more rows than the geometric cap, drained with a hard read budget: decoded bytes <= cap rows x ceil(Columns/8). Non-trivial: every case.", runFBBombs)
-	addRun("C08", "FB: DCTDecode on synthetic JPEGs (SOI, APP14, DQT, SOF0/1/2 with 1, 3 and 4 components and all sampling factor combinations H,V in {1,2,4}, DHT with one-code tables, DRI, SOS, a few entropy bytes, AC scans), truncated at every marker boundary, hostile dimensions/precision/selectors/counts, progressive files with 1..2500 first-pass and refinement scans of EOB-run tokens at up to 2048x2048 (rejected, or decoded with scans x blocks <= 4 x (input+output) and CPU time <= 3 s + 200 ns x (input+output)), and JBIG2Decode on hostile segment headers and on pages from the library's encoder (text region over symbol dictionaries, generic, halftone over pattern dictionaries) with mutated counts, flags, referred-to lists, geometry and starved coded data; JBIG2 memory accounting on structured streams (symbol dictionary with 256 KiB..1 MiB symbols, 2..16 rounds of intermediate generic region + further dictionary + Huffman or arithmetic text region with SBREFINE=1 and mixed RI bits): retained heap (HeapAlloc after forced GC, sampled and at every pool event) <= budget + 2 MiB and <= charged bytes + 2 MiB, pool ledger consistent (every freeBitmap names a live bitmap that is unreachable three events later); run in child processes (a helper-goroutine panic would kill the harness): data or malformed error, no crash, no hang (10 s watchdog, attributed to the running case), output within width x height x components, no goroutine left after Close (also after an early Close). Non-trivial: data was produced.", runFBChild)
+	addRun("C08", "FB: DCTDecode on synthetic JPEGs (SOI, APP14, DQT, SOF0/1/2 with 1, 3 and 4 components and all sampling factor combinations H,V in {1,2,4}, DHT with one-code tables, DRI, SOS, a few entropy bytes, AC scans), truncated at every marker boundary, hostile dimensions/precision/selectors/counts, progressive files with 1..2500 first-pass and refinement scans of EOB-run tokens at up to 2048x2048 (rejected, or decoded with scans x blocks <= 4 x (input+output) and CPU time <= 3 s + 200 ns x (input+output)), and JBIG2Decode on hostile segment headers and on pages from the library's encoder (text region over symbol dictionaries, generic, halftone over pattern dictionaries) with mutated counts, flags, referred-to lists, geometry and starved coded data; JBIG2 memory accounting on structured streams (symbol dictionary with 256 KiB..1 MiB symbols, 2..16 rounds of intermediate generic region + further dictionary + Huffman or arithmetic text region with SBREFINE=1 and mixed RI bits): retained heap (HeapAlloc after forced GC, sampled and at every pool event) <= budget + 2 MiB and <= charged bytes + 2 MiB, pool ledger consistent (every freeBitmap names a live bitmap that is unreachable three events later); filter chains of length 2-3 with the goroutine-owning DCT decoder at every position, 50 DecodeStream/Close cycles per life cycle (construction fails above DCT, read to EOF, read 10 bytes, unread): goroutines back at the baseline, heap growth <= 8 MiB; run in child processes (a helper-goroutine panic would kill the harness): data or malformed error, no crash, no hang (10 s watchdog, attributed to the running case), output within width x height x components, no goroutine left after Close (also after an early Close). Non-trivial: data was produced.", runFBChild)
 	addReplay("C08", "fb-hostile-child", replayChild)
 	addReplay("C08", "fb-bomb", replayBomb)
 	addReplay("C08", "fb-hostile", replayHostile)
@@ -32,11 +36,11 @@ func replayGetFilters(input string) (bool, string) {
 	if len(a) != 2 {
 		return true, "bad replay input"
 	}
-	fo, err1 := unwireSeq(a[0])
-	po, err2 := unwireSeq(a[1])
-	if err1 != nil || err2 != nil || len(fo) != 1 || len(po) != 1 {
+	fo, err1 := fbUnwireOne(a[0])
+	po, err2 := fbUnwireOne(a[1])
+	if err1 != nil || err2 != nil {
 		return true, "bad replay input"
 	}
-	line := fbGetFiltersLine(fo[0], po[0])
+	line := fbGetFiltersLine(fo, po)
 	return !(line == "err other" || len(line) > 5 && line[:5] == "panic"), line
 }
